@@ -106,6 +106,7 @@ def run(ctx):
     depth2 = [a for a in exh if a["op"] in ("and", "or") and a["x"]["op"] in ("atom", "not") and a["y"]["op"] in ("atom", "not")
               and (a["x"]["op"] == "atom" or a["x"]["x"]["op"] == "atom") and (a["y"]["op"] == "atom" or a["y"]["x"]["op"] == "atom")
               and not (a["x"]["op"] == "not" and a["x"]["x"]["op"] != "atom")]
+    depth2 = [a for a in depth2 if "sub_" not in json.dumps(a)]      # sub-query cases are always kept
     d2ids = {id(a) for a in depth2}
     other = [a for a in exh if id(a) not in d2ids]
     if ctx.quick():
